@@ -89,10 +89,14 @@ UTIL_MC = {'module': 'MC_Util', 'what': 'composition of the five package machine
            'tiers': {'quick': {'env': {'UTIL_DEPTH': '3'}}, 'thorough': {'env': {'UTIL_DEPTH': '4'}}}}
 
 
+CAL_LEMMA = vf.apalache_leg('CalendarLemma', 'Inv', 0, 'Ordinal(next day) = Ordinal + 1, year brackets, binary year bytes round trip, for every year in +-999 999 999')
+
+
 PLANS = {
     'C01': {
         'mc': [{'module': 'MC_C01', 'what': '18 boundary years x every day x {ext,basic} x 8 limits: Parse(Fmt(d)) = d, canonical shape, Ordinal counts days'}],
         'drivers': [{'name': 'c01', 'shards': 8, 'tiers': {'thorough': {'shards': 16}}}],
+        'legs': [CAL_LEMMA],
         'codes': ['C01.'],
         'exhaustive': {'thorough': True},
         'rule': 'one date.rt event per date: 10 output paths and 10 input-path results judged by TLC against FmtDate/ParseDateRef; '
@@ -117,6 +121,7 @@ PLANS = {
     'C11': {
         'mc': [{'module': 'MC_C11', 'what': 'all 65536 (month,day) bytes x 6 years x versions x lengths: decode is strict; Decode(Encode(d)) = d'}],
         'drivers': [{'name': 'c11', 'shards': 8}],
+        'legs': [CAL_LEMMA],
         'codes': ['C11.'],
         'rule': 'date.bin events (layout + round trip) and date.unbin events (receiver pre/post state) judged by TLC against BinEncode/BinDecodeRef',
         'assumptions': COMMON_ASSUMPTIONS,
@@ -124,6 +129,7 @@ PLANS = {
     'C07': {
         'mc': [{'module': 'MC_C07', 'what': 'order laws, Ordinal monotone, Normalize idempotent on boundary years'}],
         'drivers': [{'name': 'c07', 'shards': 8, 'tiers': {'thorough': {'shards': 16}}}],
+        'legs': [CAL_LEMMA],
         'codes': ['C07.'],
         'rule': 'date.cmp / add / adddur / time / fromtime events judged by TLC against Calendar (Lt, Ord, AddYMD, Civil)',
         'assumptions': COMMON_ASSUMPTIONS,
